@@ -30,7 +30,9 @@ from comb_spec_searcher import (
     VerificationStrategy,
 )
 from comb_spec_searcher.exception import InvalidOperationError, StrategyDoesNotApply
+from comb_spec_searcher.strategies.constructor.base import Constructor
 from comb_spec_searcher.strategies.rule import Rule
+from comb_spec_searcher.strategies.strategy import Strategy
 
 # the random source used by world samplers (FiatVerified, WordAtom); set per run
 CURRENT_RNG = None
@@ -46,6 +48,16 @@ class Wd(tuple, CombinatorialObject):
         return tuple.__len__(self)
 
 
+MARK0 = 100  # marked words: (MARK0 + mark, *letters); the mark does not count towards the size
+
+
+class MWd(tuple, CombinatorialObject):
+    """A marked word."""
+
+    def size(self):
+        return tuple.__len__(self) - 1
+
+
 def _contains(word, patt):
     lp = len(patt)
     return any(word[i : i + lp] == patt for i in range(len(word) - lp + 1))
@@ -58,7 +70,9 @@ class W(CombinatorialClass):
 
     COMPRESS = False
 
-    def __init__(self, prefix, patterns, alphabet, just_prefix=False, tracked=(), start_set=None):
+    def __init__(self, prefix, patterns, alphabet, just_prefix=False, tracked=(), start_set=None, marks=1):
+        # marks > 1: every word of the class comes in `marks` marked copies (ForgetMark undoes it)
+        self.marks = marks
         self.alphabet = tuple(sorted(set(alphabet)))
         self.prefix = Wd(prefix)
         self.patterns = tuple(sorted(set(tuple(p) for p in patterns)))
@@ -72,6 +86,8 @@ class W(CombinatorialClass):
 
     # -- identity --------------------------------------------------------
     def key(self):
+        if self.marks > 1:
+            return (self.prefix, self.patterns, self.alphabet, self.just_prefix, self.tracked, self.start_set, self.marks)
         if self.start_set is None:
             return (self.prefix, self.patterns, self.alphabet, self.just_prefix, self.tracked)
         return (self.prefix, self.patterns, self.alphabet, self.just_prefix, self.tracked, self.start_set)
@@ -84,6 +100,8 @@ class W(CombinatorialClass):
 
     def __repr__(self):
         extra = "" if self.start_set is None else f", start_set={self.start_set}"
+        if self.marks > 1:
+            extra += f", marks={self.marks}"
         return f"{type(self).__name__}({tuple(self.prefix)}, {self.patterns}, {self.alphabet}, {self.just_prefix}, {self.tracked}{extra})"
 
     def __str__(self):
@@ -97,6 +115,7 @@ class W(CombinatorialClass):
             just_prefix=self.just_prefix,
             tracked=self.tracked,
             start_set=self.start_set,
+            marks=self.marks,
         )
         d.update(kw)
         return type(self)(**d)
@@ -110,19 +129,20 @@ class W(CombinatorialClass):
             just_prefix=int(self.just_prefix),
             tracked=list(self.tracked),
             start_set=None if self.start_set is None else list(self.start_set),
+            marks=self.marks,
         )
         return d
 
     @classmethod
     def from_dict(cls, d):
-        return cls(d["prefix"], d["patterns"], d["alphabet"], bool(d["just_prefix"]), d["tracked"], d.get("start_set"))
+        return cls(d["prefix"], d["patterns"], d["alphabet"], bool(d["just_prefix"]), d["tracked"], d.get("start_set"), d.get("marks", 1))
 
     # -- what the engine needs -------------------------------------------
     def is_empty(self):
         return any(_contains(self.prefix, p) for p in self.patterns)
 
     def is_atom(self):
-        return self.just_prefix
+        return self.just_prefix and self.marks == 1
 
     def minimum_size_of_object(self):
         return len(self.prefix)
@@ -176,8 +196,12 @@ _MAX_CACHE = 200000
 
 def truth_objects(c, n):
     """All words of the class of length n, by brute force, in lexicographic order."""
-    k = (c.prefix, c.patterns, c.alphabet, c.just_prefix, n, c.start_set)
+    k = (c.prefix, c.patterns, c.alphabet, c.just_prefix, n, c.start_set, c.marks)
     res = _OBJ_CACHE.get(k)
+    if res is None and c.marks > 1:
+        base = truth_objects(c.replace(marks=1), n)
+        res = tuple(MWd((MARK0 + i,) + tuple(w)) for w in base for i in range(c.marks))
+        _OBJ_CACHE[k] = res
     if res is None:
         res = []
         lp = len(c.prefix)
@@ -228,6 +252,8 @@ class MaskMixin:
     lazy = False
 
     def masked(self, c):
+        if c.marks > 1 and not isinstance(self, ForgetMark):
+            return True  # marked classes are only understood by ForgetMark
         m = self.mask
         if m is None:
             return False
@@ -470,6 +496,88 @@ class SplitZeros(MaskMixin, CartesianProductStrategy):
         return cls(d.get("mask"), d.get("lazy", False))
 
 
+class Multiply(Constructor):
+    """parent = m marked copies of the child: a constructor whose backward map is m-to-one."""
+
+    def __init__(self, m, names):
+        self.m = m
+        self.names = names
+
+    def get_equation(self, lhs_func, rhs_funcs):
+        import sympy
+
+        return sympy.Eq(lhs_func, self.m * rhs_funcs[0])
+
+    def reliance_profile(self, n, **parameters):
+        return ({"n": (n,)},)
+
+    def get_terms(self, parent_terms, subterms, n):
+        return Counter({k: v * self.m for k, v in subterms[0](n).items()})
+
+    def get_sub_objects(self, subobjs, n):
+        for params, objs in subobjs[0](n).items():
+            yield params, (objs,)
+
+    def random_sample_sub_objects(self, parent_count, subsamplers, subrecs, n, **parameters):
+        return (subsamplers[0](n=n, **parameters),)
+
+    def equiv(self, other, data=None):
+        return isinstance(other, Multiply) and other.m == self.m, None
+
+
+class ForgetMark(MaskMixin, Strategy):
+    """Marked words -> words: the forward map forgets the mark, so every word has `marks`
+    preimages (the sampler has to pick one of them uniformly)."""
+
+    def __init__(self, mask=None, lazy=False):
+        super().__init__(ignore_parent=True, inferrable=False, possibly_empty=False, workable=True)
+        self.mask = mask
+        self.lazy = lazy
+
+    def _args_repr(self):
+        return ""
+
+    def can_be_equivalent(self):
+        return False
+
+    def is_two_way(self, comb_class):
+        return False
+
+    def is_reversible(self, comb_class):
+        return False
+
+    def shifts(self, comb_class, children=None):
+        return (0,)
+
+    def decomposition_function(self, c):
+        if c.marks <= 1 or c.is_empty() or self.masked(c):
+            return None
+        return (c.replace(marks=1),)
+
+    def constructor(self, comb_class, children=None):
+        return Multiply(comb_class.marks, comb_class.extra_parameters)
+
+    def reverse_constructor(self, idx, comb_class, children=None):
+        raise NotImplementedError
+
+    def extra_parameters(self, comb_class, children=None):
+        return ({k: k for k in comb_class.extra_parameters},)
+
+    def backward_map(self, comb_class, objs, children=None):
+        for i in range(comb_class.marks):
+            yield MWd((MARK0 + i,) + tuple(objs[0]))
+
+    def forward_map(self, comb_class, obj, children=None):
+        return (Wd(obj[1:]),)
+
+    def to_jsonable(self):
+        return self._base_json()
+
+    @classmethod
+    def from_dict(cls, d):
+        return cls(d.get("mask"), d.get("lazy", False))
+
+
 class _Unary(MaskMixin, DisjointUnionStrategy):
     """Equivalence strategies: one child with exactly the same words."""
 
@@ -568,12 +676,12 @@ class MergeDuplicateStatistics(_Unary):
 class TrackLetter(_Unary):
     """tracked = () -> (a,): the child refines the parent; its statistic is summed out."""
 
-    def __init__(self, letter=0, mask=None, lazy=False, two_way=True):
-        super().__init__(mask=mask, lazy=lazy, two_way=two_way)
+    def __init__(self, letter=0, mask=None, lazy=False, two_way=True, ignore_parent=True):
+        super().__init__(mask=mask, lazy=lazy, two_way=two_way, ignore_parent=ignore_parent)
         self.letter = letter
 
     def _args_repr(self):
-        return f"letter={self.letter}" + ("" if self.two_way else ",one_way")
+        return f"letter={self.letter}" + ("" if self.two_way else ",one_way") + ("" if self.ignore_parent else "+keep_parent")
 
     def child(self, c):
         if c.tracked or c.just_prefix:
@@ -590,7 +698,51 @@ class TrackLetter(_Unary):
 
     @classmethod
     def from_dict(cls, d):
-        return cls(d["letter"], d.get("mask"), d.get("lazy", False), d.get("two_way", True))
+        return cls(d["letter"], d.get("mask"), d.get("lazy", False), d.get("two_way", True), d.get("ignore_parent", True))
+
+
+class Rename(_Unary):
+    """The class with its letters renamed by a permutation (an ordinary unary strategy, not a
+    symmetry of the pack).  Declared one-way, a 3-cycle and its square give overlapping
+    directed cycles of one-way rules: A -> A' -> A'' -> A and A -> A'' -> A' -> A."""
+
+    def __init__(self, perm=(1, 0), mask=None, lazy=False, two_way=False, ignore_parent=False):
+        super().__init__(mask=mask, lazy=lazy, two_way=two_way, ignore_parent=ignore_parent)
+        self.perm = tuple(perm)
+
+    def _args_repr(self):
+        return f"perm={self.perm}" + ("" if self.two_way else ",one_way") + ("" if self.ignore_parent else "+keep_parent")
+
+    def _m(self, l):
+        return self.perm[l] if l < len(self.perm) else l
+
+    def child(self, c):
+        return c.replace(
+            prefix=tuple(self._m(l) for l in c.prefix),
+            patterns=tuple(tuple(self._m(l) for l in p) for p in c.patterns),
+            alphabet=tuple(self._m(l) for l in c.alphabet),
+            tracked=tuple(self._m(l) for l in c.tracked),
+            start_set=None if c.start_set is None else tuple(self._m(l) for l in c.start_set),
+        )
+
+    def param_map(self, c, child):
+        return {k: k for k in c.extra_parameters}
+
+    def forward_map(self, comb_class, obj, children=None):
+        return (Wd(self._m(l) for l in obj),)
+
+    def backward_map(self, comb_class, objs, children=None):
+        inv = {self._m(l): l for l in range(max(len(self.perm), 4))}
+        yield Wd(inv[l] for l in objs[0])
+
+    def to_jsonable(self):
+        d = self._base_json()
+        d.update(perm=list(self.perm), two_way=self.two_way)
+        return d
+
+    @classmethod
+    def from_dict(cls, d):
+        return cls(d["perm"], d.get("mask"), d.get("lazy", False), d.get("two_way", False), d.get("ignore_parent", False))
 
 
 class LetterPermutation(MaskMixin, SymmetryStrategy):
@@ -661,7 +813,7 @@ class WordAtom(VerificationStrategy):
         super().__init__(ignore_parent=True)
 
     def verified(self, comb_class):
-        return comb_class.just_prefix
+        return comb_class.just_prefix and comb_class.marks == 1
 
     def get_terms(self, comb_class, n):
         if n == len(comb_class.prefix) and not comb_class.is_empty():
@@ -708,7 +860,7 @@ class FiatVerified(VerificationStrategy):
         self.pack_spec = pack_spec
 
     def verified(self, comb_class):
-        if comb_class.just_prefix or comb_class.is_empty():
+        if comb_class.just_prefix or comb_class.is_empty() or comb_class.marks > 1:
             return False
         if comb_class.key() in self.keys:
             return True
@@ -826,11 +978,13 @@ class ExpandFactory(StrategyFactory):
 _STRATS = {
     "Expand": lambda s: Expand(s.get("d", 1), _mask(s), s.get("lazy", False), s.get("drop", False)),
     "SplitZeros": lambda s: SplitZeros(_mask(s), s.get("lazy", False)),
+    "ForgetMark": lambda s: ForgetMark(_mask(s), s.get("lazy", False)),
     "RemoveFront": lambda s: RemoveFront(_mask(s), s.get("lazy", False), s.get("split", False), s.get("merge", False)),
     "ReducePatterns": lambda s: ReducePatterns(_mask(s), s.get("lazy", False), two_way=s.get("two_way", True), ignore_parent=s.get("ignore_parent", True)),
     "DropDeadStatistic": lambda s: DropDeadStatistic(_mask(s), s.get("lazy", False), two_way=s.get("two_way", True), ignore_parent=s.get("ignore_parent", True)),
     "MergeDuplicateStatistics": lambda s: MergeDuplicateStatistics(_mask(s), s.get("lazy", False), two_way=s.get("two_way", True), ignore_parent=s.get("ignore_parent", True)),
-    "TrackLetter": lambda s: TrackLetter(s.get("letter", 0), _mask(s), s.get("lazy", False), s.get("two_way", True)),
+    "TrackLetter": lambda s: TrackLetter(s.get("letter", 0), _mask(s), s.get("lazy", False), s.get("two_way", True), s.get("ignore_parent", True)),
+    "Rename": lambda s: Rename(tuple(s["perm"]), _mask(s), s.get("lazy", False), s.get("two_way", False), s.get("ignore_parent", False)),
     "LetterPermutation": lambda s: LetterPermutation(tuple(s["perm"]), _mask(s), s.get("lazy", False)),
     "WordAtom": lambda s: WordAtom(),
     "AtomStrategy": lambda s: AtomStrategy(),
@@ -877,6 +1031,7 @@ def make_class(spec):
         bool(spec.get("just_prefix", False)),
         tuple(spec.get("tracked", ())),
         spec.get("start_set"),
+        spec.get("marks", 1),
     )
 
 
@@ -890,6 +1045,25 @@ def pack_strategies(pack):
         else:
             res.append(st)
     return res
+
+
+def true_shifts(strategy, c, children):
+    """Shifts of a forward rule of this world, derived independently of the library:
+    a union reads its children at the same size; a product reads child i at the size
+    minus the minimum sizes of the other factors (minimum size = length of the prefix)."""
+    if isinstance(strategy, VerificationStrategy):
+        return ()
+    if isinstance(strategy, CartesianProductStrategy):
+        mins = [len(ch.prefix) for ch in children]
+        return tuple(sum(mins) - m for m in mins)
+    return tuple(0 for _ in children)
+
+
+def true_reverse_shifts(forward, idx):
+    """Counting child idx from the parent and the siblings: the parent is read at the
+    size plus the forward shift of that child, each sibling relative to that."""
+    p = -forward[idx]
+    return (p,) + tuple(s + p for i, s in enumerate(forward) if i != idx)
 
 
 # ---------------------------------------------------------------------------
@@ -918,6 +1092,17 @@ def selfcheck_rule(strategy, c, nmax=5):
         for n in range(nmax + 1):
             if strategy.get_terms(c, n) != truth_terms(c, n) and +strategy.get_terms(c, n) != +truth_terms(c, n):
                 raise WorldBug(f"{strategy} terms wrong on {c} at n={n}")
+        return
+    if isinstance(strategy, ForgetMark):
+        for n in range(nmax + 1):
+            built = Counter()
+            for x in truth_objects(children[0], n):
+                for y in strategy.backward_map(c, (x,), children):
+                    if strategy.forward_map(c, y, children) != (x,):
+                        raise WorldBug("ForgetMark maps are not inverse")
+                    built[tuple(y)] += 1
+            if built != Counter(tuple(w) for w in truth_objects(c, n)):
+                raise WorldBug(f"ForgetMark on {c} is wrong at n={n}")
         return
     params = strategy.extra_parameters(c, children)
     if len(params) != len(children):
@@ -959,7 +1144,7 @@ def selfcheck_rule(strategy, c, nmax=5):
         else:
             for ch, pm in zip(children, params):
                 for x in truth_objects(ch, n):
-                    if isinstance(strategy, LetterPermutation):
+                    if isinstance(strategy, (LetterPermutation, Rename)):
                         w = tuple(next(strategy.backward_map(c, (x,), children)))
                         if strategy.forward_map(c, Wd(w), children)[0] != x:
                             raise WorldBug(f"{strategy}: forward/backward not inverse on {x}")
